@@ -23,6 +23,7 @@ type Env struct {
 	// entry state of the innermost loop (for entry(e))
 	loopEntry *State
 	depth     int
+	inOld     bool
 }
 
 type specErr struct{ msg string }
@@ -182,6 +183,16 @@ func (env *Env) ident(name string) *Val {
 		return scalar(TTrue, types.Typ[types.Bool])
 	case "false":
 		return scalar(TFalse, types.Typ[types.Bool])
+	}
+	if env.fr != nil && env.inOld {
+		// under old(), a parameter denotes its value at entry (even if it was captured or reassigned)
+		for _, p := range env.fr.fn.Params {
+			if p.Name() == name {
+				if v, ok := env.fr.vals[p]; ok {
+					return v
+				}
+			}
+		}
 	}
 	if env.fr != nil {
 		if nv, ok := env.fr.names[name]; ok {
@@ -704,6 +715,7 @@ func (env *Env) call(e *Expr) *Val {
 	case "old":
 		n := *env
 		n.cur = env.old
+		n.inOld = true
 		if env.ex.inputs != nil && env.fr == nil {
 			// captured variables: old(x) is the value at entry
 			nv := map[string]*Val{}
@@ -856,6 +868,13 @@ func (env *Env) call(e *Expr) *Val {
 	case "errIs":
 		a, b := env.eval(e.Args[0]), env.eval(e.Args[1])
 		return scalar(App("errIs", SBool, recast(a.T, SErr), recast(b.T, SErr)), boolT)
+	case "boxfresh":
+		// boxfresh(x): x is an interface value statically known to hold a []byte whose backing array was allocated by this function
+		a := env.eval(e.Args[0])
+		if a.Box == nil || a.Box.K != VSlice {
+			return scalar(TTrue, boolT)
+		}
+		return scalar(Or(Eq(a.Box.Len, IntLit(0, SInt)), Ge(a.Box.Ref, env.old.alloc)), boolT)
 	case "isHandleOf":
 		// isHandleOf(v, h): the interface value v holds the function value h
 		a, b := env.eval(e.Args[0]), env.eval(e.Args[1])
